@@ -15,6 +15,7 @@ sys.path.insert(0, os.path.dirname(os.path.abspath(__file__)))
 from lib import *
 import build as B
 import families as F
+import translate as T
 
 AXIOM_ALLOW = set()   # names of standard-library axioms accepted under property theorems (none needed so far)
 
@@ -61,6 +62,23 @@ def check_proofs(pid, tier):
                     if bad: res['problems'].append('theorem %s depends on axioms outside the allow-list: %s' % (name, bad))
             res['discharged'] = sum(1 for t in theorems if t in res['axioms'] and
                                     all(n in AXIOM_ALLOW for n in res['axioms'][t]))
+    # tables regenerated from the Rust source: generated definition = hand-written model function, for all arguments
+    res['source_tables'] = {}
+    mine = [t for t, ps in T.USED_BY.items() if pid in ps]
+    if ok and mine:
+        st = T.run(only=mine)
+        for t in mine:
+            x = st.get(t, {'status': 'unparsed', 'reason': 'not run'})
+            res['source_tables'][t] = {k: v for k, v in x.items() if k != 'file'}
+            if x['status'] != 'ok':
+                continue            # the fragment left the translator's Rust subset: no tie by translation, the correspondence remains (not an alarm)
+            res['obligations'] += 1; res['theorems'].append(x['theorem'])
+            if x.get('compiles') and x.get('closed'):
+                res['discharged'] += 1; res['axioms'][x['theorem']] = []
+            else:
+                res['problems'].append('the table `%s` translated from src/range.rs is no longer the model function the theorems are about (%s fails): %s'
+                                       % (t, x['theorem'], (x.get('coq_error') or 'not closed under the global context')[-500:]))
+        res['checker_cmd'] += '; tools/translate.py + coqc coq/Gen/Src_{%s}.v' % ','.join(mine)
     bad = B.audit_sources()
     if bad: res['problems'].append('source audit: ' + '; '.join(bad[:5]))
     if tier == 'thorough' and ok and not res['problems']:
@@ -252,7 +270,7 @@ def main():
         'coverage': {
             'obligations': max(proofs['obligations'], 1), 'discharged': proofs['discharged'],
             'checker_cmd': proofs['checker_cmd'], 'trusted_base': tb,
-            'theorems': proofs['theorems'], 'proof_problems': proofs['problems'],
+            'theorems': proofs['theorems'], 'proof_problems': proofs['problems'], 'source_tables': proofs.get('source_tables', {}),
             'evaluations': max(cov['evaluations'], 1), 'distinct_nontrivial': cov['distinct_nontrivial'],
             'rule': spec['rule'], 'samples': cov['samples'][:12], 'exhaustive': cov['exhaustive'],
             'traces_validated_against_impl': cov['traces_validated_against_impl'],
